@@ -133,10 +133,14 @@ class Renames(EvalableModel):
     """
 
     def get_renames_for_einsum(self, einsum_name: EinsumName) -> EinsumRename:
-        if einsum_name not in self.einsums:
+        # ``einsums`` is a plain list, so look the entry up by its name.
+        rename = None
+        for einsum in self.einsums:
+            if einsum.name == einsum_name:
+                rename = copy.deepcopy(einsum)
+                break
+        if rename is None:
             rename = EinsumRename(name=einsum_name)
-        else:
-            rename = copy.deepcopy(self.einsums[einsum_name])
         for einsum in self.einsums:
             if einsum.name != "default":
                 continue
